@@ -231,7 +231,15 @@ def match_finding(findings, sig):
 
 def evaluate(mod, cases, procs):
     impl = run_impl_all(mod.__name__, cases, procs)
-    lines = [c.op + " " + wire.enc(c.input) + " " + wire.enc(o) for c, o in zip(cases, impl)]
+    lines = []
+    for i, (c, o) in enumerate(zip(cases, impl)):
+        minp = c.input
+        if isinstance(o, dict) and "__model_input__" in o:
+            # the case is a *specification* (request + simulated device); the implementation run
+            # recorded what the device answered, and that record is the model's script
+            minp = o["__model_input__"]
+            impl[i] = o = o["out"]
+        lines.append(c.op + " " + wire.enc(minp) + " " + wire.enc(o))
     drv = run_driver(lines)
     return impl, drv, lines
 
